@@ -32,6 +32,17 @@ const (
 	h2 = "bbbb"
 )
 
+// purlTable: index 0 absent; 1,2 the two plain purls; 3.. purls with qualifiers and/or a subpath that denote
+// different packages although they share a prefix (same up to '?', same up to '#').
+var purlTable = []string{"", p1, p2,
+	"pkg:golang/example.com/mod@v1.0.0?type=module",
+	"pkg:golang/example.com/mod@v1.0.0?type=module#cmd/a",
+	"pkg:golang/example.com/mod@v1.0.0?type=module#cmd/b",
+	"pkg:golang/example.com/mod@v1.0.0#cmd/a",
+	"pkg:golang/example.com/mod@v1.0.0?type=other#cmd/a",
+	"pkg:golang/example.com/mod@v1.0.0",
+}
+
 var algos = []int32{int32(sbom.HashAlgorithm_SHA1), int32(sbom.HashAlgorithm_SHA256)}
 
 // variant describes a node of the alphabet.
@@ -67,7 +78,7 @@ func (v variant) build(id string) *sbom.Node {
 		}
 	}
 	if v.Purl != 0 {
-		n.Identifiers = map[int32]string{int32(sbom.SoftwareIdentifierType_PURL): []string{"", p1, p2}[v.Purl]}
+		n.Identifiers = map[int32]string{int32(sbom.SoftwareIdentifierType_PURL): purlTable[v.Purl]}
 		if v.Purl == 1 {
 			n.Identifiers[int32(sbom.SoftwareIdentifierType_CPE23)] = "cpe:2.3:a:x:y:1:*:*:*:*:*:*:*"
 		}
@@ -207,6 +218,13 @@ func Run(c *engine.Ctx) {
 		matchGroup("match-n2-full", full, full, 2)
 		matchGroup("match-n3-noempty", noEmpty, noEmpty, 3)
 		matchGroup("match-n4-small", small, smallK, 4)
+	}
+
+	structured := variants([]int{0, 2}, []int{3, 4, 5, 6, 7, 8}, []bool{false})
+	matchGroup("match-n1-purl-structure", structured, structured, 1)
+	matchGroup("match-n2-purl-structure", structured, structured, 2)
+	if c.Thorough() {
+		matchGroup("match-n3-purl-structure", variants([]int{0, 2}, []int{3, 4, 5, 6}, []bool{false}), variants([]int{0, 2}, []int{4, 5}, []bool{false}), 3)
 	}
 
 	lookups(c, idNames)
